@@ -185,16 +185,56 @@ def c06(ctx, res):
             files.append(origin.to_bytes(2, "big") + b"\xF0\x25" * n)
             files.append(origin.to_bytes(2, "big") + b"\xF0\x25" * n + b"\x00")  # odd length
 
+    def via_fifo(ix):
+        return ix % 5 == 3
+
+    def feed(path, data):
+        """Writer side of the FIFO: wait (bounded) for the reader, write everything, close."""
+        import errno
+        deadline = time.time() + 8
+        fd = None
+        while time.time() < deadline:
+            try:
+                fd = os.open(path, os.O_WRONLY | os.O_NONBLOCK)
+                break
+            except OSError as ex:
+                if ex.errno != errno.ENXIO:
+                    return
+                time.sleep(0.01)
+        if fd is None:
+            return
+        os.set_blocking(fd, True)
+        try:
+            view = memoryview(data)
+            while len(view):
+                view = view[os.write(fd, view[:65536]):]
+        except OSError:
+            pass
+        finally:
+            os.close(fd)
+
     def load(ix):
         data = files[ix]
         name = "f%d.%s" % (ix, "lc3" if ix % 2 else "obj")
-        _write(os.path.join(d, name), data)
-        r = lace(ctx, ["run", name, "--minimal"], cwd=d, timeout=8, stdin=b"")
-        os.remove(os.path.join(d, name))
+        path = os.path.join(d, name)
+        if via_fifo(ix):
+            # the same bytes offered through a named pipe: a file whose size is not known in advance
+            import threading
+            os.mkfifo(path)
+            t = threading.Thread(target=feed, args=(path, data), daemon=True)
+            t.start()
+            r = lace(ctx, ["run", name, "--minimal"], cwd=d, timeout=8, stdin=b"")
+            t.join(timeout=10)
+        else:
+            _write(path, data)
+            r = lace(ctx, ["run", name, "--minimal"], cwd=d, timeout=8, stdin=b"")
+        os.remove(path)
         return ix, r
     for ix, r in pmap(load, range(len(files))):
         data = files[ix]
         res.evaluations += 1
+        if via_fifo(ix):
+            res.cls("delivery:fifo:" + ("empty" if not data else "odd" if len(data) % 2 else "even"))
         n = len(data) // 2 - 1
         if len(data) == 0:
             cls, want = "empty", "reject"
@@ -229,7 +269,7 @@ def c06(ctx, res):
                 res.violate("C06/loader-rejected/" + cls, "an even-length image which fits below 0x10000 was rejected (exit %s)" % r.rc, detail)
     res.distinct += len(set(files))
     res.require(["round_trip", "dest:longer_file_existed", "dest:absent", "ext:lc3", "ext:obj", "loader:empty", "loader:odd", "loader:fits", "loader:too_long",
-                 "edge:FFFF", "edge:10000", "edge:FFFE"], "L2")
+                 "edge:FFFF", "edge:10000", "edge:FFFE", "delivery:fifo:odd", "delivery:fifo:even"], "L2")
     return res
 
 
@@ -265,6 +305,38 @@ def c07(ctx, res):
         cases.append((e["source"], e["stack"], "valid"))
     if not ctx.thorough():
         cases = cases[:190]
+    # one small source per *reason* for rejection, at every stage of the pipeline (lexer,
+    # preprocessor, parser, symbol resolution, emission): the three commands have to agree on
+    # each, whatever path the diagnostic takes. No reference verdict is needed: agreement is the oracle.
+    refs = [("br", "br %s"), ("brnzp", "BRnzp %s"), ("ld", "ld r0 %s"), ("ldi", "ldi r1, %s"), ("lea", "lea r2 %s"),
+            ("st", "st r3 %s"), ("sti", "sti r4 %s"), ("jsr", "jsr %s")]
+    for mn, form in refs:
+        cases.append((form % "nowhere" + "\nhalt\n", False, "reason:undefined_label"))
+        cases.append(("here add r0 r0 #1\n" + form % "Here" + "\nhalt\n", False, "reason:undefined_label"))
+        cases.append((".orig x4000\nhalt\n" + form % "nowhere" + "\n", False, "reason:undefined_label"))
+    cases.append(("call nowhere\nhalt\n", True, "reason:undefined_label"))
+    for text in (".orig x3000\nadd r0 r0 #1\n.orig x4000\nhalt\n", ".orig x3000\n.orig x3000\nhalt\n",
+                 "halt\n.orig x3000\n.ORIG x5000\n", ".orig x3000\nlea r0 s\nputs\nhalt\n.orig x3100\ns .stringz \"x\"\n"):
+        cases.append((text, False, "reason:origin_twice"))
+    for text in ("dup add r0 r0 #1\ndup halt\n", "a halt\nb halt\na .fill #1\n", "x1 halt\n", "loop br loop\nloop: halt\n"):
+        cases.append((text, False, "reason:duplicate_or_bad_label"))
+    for text in ("add r0 r0\nhalt\n", "add r0 #1 r0\n", "ld r0\n", "not r1\nhalt\n", "jmp\n", "trap\n", "lonely\n", "ldr r0 r1\n",
+                 "frob r0 r0\n", ".orig\nhalt\n", "halt halt extra #1\n", "add r0 r0 r0 r0\n", "ret r1\n", "r0 add r0 r0 r0\n"):
+        cases.append((text, False, "reason:syntax"))
+    for text in (".stringz 5\n", ".blkw \"a\"\n", ".fill\n", ".fill nowhere\n", ".blkw\n", ".stringz\n", ".blkw #-1\n", ".fill x10000\n", ".blkw x10000\n"):
+        cases.append((text, False, "reason:directive_operand"))
+    for text in ("lab .stringz \"unterminated\nhalt\n", "add r0 r0 #1x\n", "add r0 r0 x\n", "add r0 r0 #\n", "ld r0 0x\n", "add r9 r0 r0\n",
+                 "\"stray\"\n", "add r0 r0 #99999999999\n", "halt \\\n", "add r0, r0, #1 ; ok\n@\n"):
+        cases.append((text, False, "reason:lexical"))
+    for text in ("add r0 r0 #16\n", "add r0 r0 #-17\n", "trap x100\n", "ldr r0 r1 #32\n", "and r0 r0 x20\n", "br #256\n", "jsr #1024\n", "ld r0 #-257\n",
+                 ".orig x10000\nhalt\n", "trap #-1\n"):
+        cases.append((text, False, "reason:operand_range"))
+    for text in ("push r0\n", "pop r1\nhalt\n", "call f\nhalt\nf rets\n", "rets\n", "PUSH R0\n"):
+        cases.append((text, False, "reason:stack_extension_off"))
+    for text in cp["fuzz"][:120 if not ctx.thorough() else 2000]:
+        cases.append((text, False, "fuzz"))
+        if any(m in text.lower() for m in ("push", "pop", "call", "rets")):
+            cases.append((text, True, "fuzz"))
 
     def one(ix):
         src, stack, tag = cases[ix]
@@ -294,6 +366,8 @@ def c07(ctx, res):
             continue
         if om == "diagnostic":
             res.cls("both_reject")
+            if tag.startswith("reason:"):
+                res.cls("both_reject:" + tag[7:])
             # run must not accept what compile rejects (it may fail later at run time for other reasons)
             if _run_assembled(run):
                 detail["run"] = run.brief()
@@ -308,13 +382,15 @@ def c07(ctx, res):
         if ix % 40 == 0:
             res.samples.append({"source": src[:400], "stack_flag": stack, "check": oc, "compile": om, "run_exit": run.rc})
     res.require(["tag:emit_fail", "tag:mixed", "tag:valid", "tag:top_of_memory", "tag:stack_ext_without_flag", "flag:stack", "flag:none",
-                 "both_accept", "both_reject", "emit_fail_minimal_program"] + ["emit_fail_form:" + f for f in ("BR", "LD", "LDI", "LEA", "ST", "STI", "JSR", "CALL")], "L2")
+                 "both_accept", "both_reject", "emit_fail_minimal_program", "tag:fuzz"]
+                + ["both_reject:" + r for r in ("undefined_label", "origin_twice", "duplicate_or_bad_label", "syntax", "directive_operand",
+                                                "lexical", "operand_range", "stack_extension_off")] + ["emit_fail_form:" + f for f in ("BR", "LD", "LDI", "LEA", "ST", "STI", "JSR", "CALL")], "L2")
     # ---- watch: every re-check equals a fresh check
     hist_n = 1 if not ctx.thorough() else 12
     for h in range(hist_n):
         watch_history(ctx, res, cp, "C07", h)
     watch_history(ctx, res, cp, "C07", 50, stack=True)
-    res.require(["watch_recheck", "watch_recheck_with_stack_flag"], "L2")
+    res.require(["watch_recheck", "watch_recheck_with_stack_flag", "watch_rewrite_by_rename_with_old_mtime"], "L2")
     return res
 
 
@@ -328,7 +404,7 @@ def _run_assembled(run):
 CLEAR = re.compile(r"\x1b\[2J\x1b\[2;1H")
 
 
-def watch_history(ctx, res, cp, prop, h, length=4, stack=False):
+def watch_history(ctx, res, cp, prop, h, length=5, stack=False):
     """Run `lace watch` on a file, rewrite it through a history of sources, compare each re-check
     with a fresh `lace check` of the same text."""
     import random
@@ -348,6 +424,10 @@ def watch_history(ctx, res, cp, prop, h, length=4, stack=False):
     # make sure a valid source follows an invalid one with the same labels at least once
     hist[1] = "loop add r0 r0 #1\nadd r0 r0 #99\n"
     hist[2] = "loop add r0 r0 #1\nbr loop\nhalt\n"
+    # ... and an invalid one arrives after a valid one as an *older* file moved into place (a restored
+    # backup: rename keeps the old modification time)
+    hist[3] = "loop add r0 r0 #1\nbrz nowhere\nhalt\n"
+    old_mtime_steps = {3}
     path = os.path.join(d, "w.asm")
     _write(path, "halt\n")
     exe = common.cli_bin(ctx)
@@ -359,7 +439,7 @@ def watch_history(ctx, res, cp, prop, h, length=4, stack=False):
     log = open(logpath, "wb")
     fl = ["-f", "stack"] if stack else []
     if stack:
-        hist[3 % length] = "push r0\npop r1\ncall f\nhalt\nf rets\n"
+        hist[4 % length] = "push r0\npop r1\ncall f\nhalt\nf rets\n"
     p = subprocess.Popen([exe, "watch", "w.asm"] + fl, cwd=d, stdin=subprocess.DEVNULL, stdout=log,
                          stderr=subprocess.STDOUT, env=env)
     try:
@@ -367,7 +447,14 @@ def watch_history(ctx, res, cp, prop, h, length=4, stack=False):
         segments = []
         for k, src in enumerate(hist):
             before = os.path.getsize(logpath)
-            _write(path, src)
+            if k in old_mtime_steps:
+                tmp = os.path.join(side, "restored.asm")
+                _write(tmp, src)
+                os.utime(tmp, (946684800, 946684800))
+                os.replace(tmp, path)
+                res.cls("watch_rewrite_by_rename_with_old_mtime")
+            else:
+                _write(path, src)
             # wait for a complete re-check (the output settles)
             deadline = time.time() + 8
             last = -1
@@ -425,6 +512,42 @@ def watch_history(ctx, res, cp, prop, h, length=4, stack=False):
             res.inconclusive["lace watch was killed by signal %d" % -died_rc] = 1
         else:
             res.violate("%s/watch-died" % prop, "`lace watch` exited (status %s) during the history" % died_rc, {"history": hist})
+
+
+# ------------------------------------------------------------------ C04 (L2 sample)
+
+def c04_cli(ctx, res):
+    """The exit status of `lace compile` against the reference verdict (and the bytes written against
+    the reference image), plus a `lace watch` history: the accept/reject verdict of a source must not
+    depend on what the same process assembled before."""
+    cp = corpus(ctx)
+    d = _dir(ctx, "c04")
+    cases = cp["mixed"][:80 if not ctx.thorough() else 1500]
+
+    def one(ix):
+        e = cases[ix]
+        name = "m%d.asm" % ix
+        _write(os.path.join(d, name), e["source"])
+        f = ["-f", "stack"] if e["uses_stack_ext"] else []
+        return ix, lace(ctx, ["compile", name, "m%d.lc3" % ix] + f, cwd=d)
+    for ix, r in pmap(one, range(len(cases))):
+        e = cases[ix]
+        res.evaluations += 1
+        res.cls("l2:compile:" + e["verdict"])
+        obj = os.path.join(d, "m%d.lc3" % ix)
+        detail = dict(r.brief(), source=e["source"][-800:], reference_verdict=e["verdict"], tag=e["tag"])
+        if r.rc is None or r.crashed:
+            res.violate("C04/cli/crash", "`lace compile` crashed (exit %s)" % r.rc, detail)
+        elif e["verdict"] == "reject" and r.rc == 0:
+            res.violate("C04/cli/accepted-invalid", "`lace compile` exits 0 for a program the reference predicate rejects", detail)
+        elif e["verdict"] == "accept" and r.rc != 0:
+            res.violate("C04/cli/rejected-valid", "`lace compile` rejects a program whose operands all fit", detail)
+        elif r.rc == 0 and e["image"] is not None:
+            want = b"".join(int(w).to_bytes(2, "big") for w in e["image"])
+            if not os.path.exists(obj) or open(obj, "rb").read() != want:
+                res.violate("C04/cli/image", "`lace compile` accepted the program but did not write the reference image", detail)
+    watch_history(ctx, res, cp, "C04", 40)
+    res.require(["l2:compile:accept", "l2:compile:reject", "watch_recheck"], "L2")
 
 
 # ------------------------------------------------------------------ C08
@@ -725,7 +848,32 @@ def c18_cli(ctx, res):
                         {"run": off.brief()})
         if on.rc == 1 and b"reserved" in on.err:
             res.violate("C18/cli/runtime-gate-on", "opcode 0xD (%s) refused although `-f stack` was given" % name, {"run": on.brief()})
-    res.require(["l2:ext_program", "l2:plain_program", "l2:raw_0xD"], "L2")
+    # ---- behaviour of plain programs at the CLI: `-f stack` must not change a byte of what is
+    # printed nor the exit status. Entries whose reference run (flag off) halted normally never
+    # executed an opcode-0xD word, so with the flag on the instruction sequence is the same.
+    plain = [e for e in cp["structured"] if not e["stack"] and not e["uses_stack_ext"] and e["ref"]["halted"]]
+    plain = plain[:40 if not ctx.thorough() else 600]
+
+    def run_both(ix):
+        e = plain[ix]
+        name = "h%d.asm" % ix
+        _write(os.path.join(d, name), e["source"])
+        mode = ["--minimal"] if ix % 2 == 0 else []
+        off = lace(ctx, ["run", name] + mode, stdin=bytes(e["input"]), cwd=d)
+        on = lace(ctx, ["run", name] + mode + ["-f", "stack"], stdin=bytes(e["input"]), cwd=d)
+        return ix, off, on
+    for ix, off, on in pmap(run_both, range(len(plain))):
+        e = plain[ix]
+        res.evaluations += 1
+        res.cls("l2:plain_program_run")
+        if "jsr" in e["source"].lower():  # JSR/JSRR leave a return address in R7, the stack pointer of the extension
+            res.cls("l2:plain_program_run_r7_changed")
+        if (off.rc, off.out, off.err) != (on.rc, on.out, on.err):
+            which = "exit status" if off.rc != on.rc else ("stdout" if off.out != on.out else "stderr")
+            res.violate("C18/cli/behaviour-depends-on-flag/" + which.replace(" ", "-"),
+                        "a program using none of the four mnemonics gives a different %s under `lace run` with `-f stack`" % which,
+                        {"source": e["source"][-800:], "flag_off": off.brief(), "flag_on": on.brief()})
+    res.require(["l2:ext_program", "l2:plain_program", "l2:raw_0xD", "l2:plain_program_run", "l2:plain_program_run_r7_changed"], "L2")
 
 
 # ------------------------------------------------------------------ C09 (L2 sample)
